@@ -153,6 +153,9 @@ def oracle_multiplane(inp):
     img = torch.tensor(inp['image'], dtype=torch.float32).reshape(C, H, W)
     dep = torch.tensor(inp['depth'], dtype=torch.float32).reshape(H, W)
     img0, dep0 = img.clone(), dep.clone()
+    if inp.get('prior'):
+        # the caller has already built another loss object from the SAME image and depth tensors
+        make_loss(inp['prior'], img, dep, n, 'naive', inp.get('blur_size', 5), inp.get('blur_ratio', 0.25)).get_targets()
     L = make_loss(cls, img, dep, n, inp['scheme'], inp.get('blur_size', 5), inp.get('blur_ratio', 0.25))
     targets, focus, dnorm = L.get_targets()
     masks = L.masks.detach().clone()
@@ -193,6 +196,8 @@ def oracle_multiplane(inp):
     if n == 1:
         out.append(('single_plane_reproduces_image', bool((targets[0] == img0).all()), 'targets[0] == image',
                     {'max_abs_err': float((targets[0] - img0).abs().max())}))
+    out.append(('caller_tensors_unchanged', bool(torch.equal(img, img0)) and bool(torch.equal(dep, dep0)), 'image and depth as passed in',
+                {'image_changed': not bool(torch.equal(img, img0)), 'depth_changed': not bool(torch.equal(dep, dep0))}))
     return out
 
 
@@ -274,8 +279,11 @@ def gen_oracle_case(rng, kind, big=False):
         return {'C': C, 'H': H, 'W': W, 'image': image, 'depth': depth, 'positions': pos, 'pos_kind': rng.choice(['list', 'tensor'])}
     n = rng.choice([1, 1, 2, 3, 4, 5, 6, 6, 7, 9, 12, 33])
     depth = [float(v) for v in gen_depth(rng, n, P, rng.choice(['boundary', 'mixed', 'mixed', 'random']))]
-    return {'cls': rng.choice(CLASSES), 'scheme': rng.choice(['naive', 'defocus']), 'n': n, 'C': C, 'H': H, 'W': W,
+    case = {'cls': rng.choice(CLASSES), 'scheme': rng.choice(['naive', 'defocus']), 'n': n, 'C': C, 'H': H, 'W': W,
             'image': image, 'depth': depth, 'blur_size': rng.choice([3, 5, 10]), 'blur_ratio': rng.choice([0.25, 0.5, 1.0])}
+    if rng.random() < 0.35:
+        case['prior'] = rng.choice(CLASSES)          # a second loss object built from the same tensors
+    return case
 
 
 # ---------------------------------------------------------------- B2: model executed inside Coq
